@@ -1,498 +1,2 @@
-/- GENERATED by tools/py2lean_heap.py from scoda/elements/*.py and scoda/sequences/*.py — do not edit.
-   Statement-by-statement translation, with respect to OBJECT IDENTITY, of the derivation routes of C16 over the cell heap of
-   Model/HeapOps.lean (conventions: docstring of the translator; support library and link table: Model/HeapLib.lean).
-   Links (view-level methods, identity behaviour as in HeapOps, values from the oracle): RelativeSequence.to_absolute_sequence, AbsoluteSequence.to_relative_sequence, RelativeSequence.split, RelativeSequence.normalise_relative, RelativeSequence.pad. -/
-import SCoda.Model.HeapLib
-set_option linter.unusedVariables false
-namespace SCoda.Gen.HeapFns
-open SCoda SCoda.HeapOps SCoda.HeapLib
-
-/-- translation of `Message.__init__` (message.py:11) -/
-def messageInit (g : GOrc) (tag : Nat) (self_ : Nat) (messageType_ : MType) (channel_ : Int) (time_ : Int) (note_ : Int) (velocity_ : Int) (control_ : Int) (numerator_ : Int) (denominator_ : Int) (key_ : Int) (program_ : Int) : HM Unit := do
-  -- super().__init__()
-  -- (object.__init__: nothing)
-  -- self.message_type = message_type
-  HM.modify (fun h => h.setMsg self_ { h.msg self_ with ty := messageType_ })
-  -- self.channel = channel
-  HM.modify (fun h => h.setMsg self_ { h.msg self_ with ch := channel_ })
-  -- self.time = time
-  HM.modify (fun h => h.setMsg self_ { h.msg self_ with time := time_ })
-  -- self.note = note
-  HM.modify (fun h => h.setMsg self_ { h.msg self_ with note := note_ })
-  -- self.velocity = velocity
-  HM.modify (fun h => h.setMsg self_ { h.msg self_ with vel := velocity_ })
-  -- self.control = control
-  HM.modify (fun h => h.setMsg self_ { h.msg self_ with ctl := control_ })
-  -- self.program = program
-  HM.modify (fun h => h.setMsg self_ { h.msg self_ with prog := program_ })
-  -- self.numerator = numerator
-  HM.modify (fun h => h.setMsg self_ { h.msg self_ with num := numerator_ })
-  -- self.denominator = denominator
-  HM.modify (fun h => h.setMsg self_ { h.msg self_ with den := denominator_ })
-  -- self.key = key
-  HM.modify (fun h => h.setMsg self_ { h.msg self_ with key := key_ })
-  -- if self.channel is None:
-  let h1 ← HM.get
-  if ((h1.msg self_).ch == pyNone) then
-    -- self.channel = 0
-    HM.modify (fun h => h.setMsg self_ { h.msg self_ with ch := 0 })
-  pure ()
-
-/-- translation of `Message.copy` (message.py:49) -/
-def messageCopy (g : GOrc) (tag : Nat) (self_ : Nat) : HM Nat := do
-  -- cpy = self.__class__(message_type=self.message_type, channel=self.channel, time=self.time, note=self.note, velocity=self.velocity, control=self.control, program=self.program, numerator=self.numerator, denominator=self.denominator, key=self.key)
-  let h1 ← HM.get
-  let t2 ← newMessage
-  messageInit g tag t2 (h1.msg self_).ty (h1.msg self_).ch (h1.msg self_).time (h1.msg self_).note (h1.msg self_).vel (h1.msg self_).ctl (h1.msg self_).num (h1.msg self_).den (h1.msg self_).key (h1.msg self_).prog
-  let mut cpy_ : Nat := t2
-  -- return cpy
-  return cpy_
-
-/-- translation of `AbstractSequence.__init__` (abstract_sequence.py:13) -/
-def abstractSequenceInit (g : GOrc) (tag : Nat) (self_ : Nat) (messages_ : Option (List (Nat))) : HM Unit := do
-  -- super().__init__()
-  -- (object.__init__: nothing)
-  -- self._messages = []
-  HM.modify (fun h => h.setLst self_ [])
-  -- if messages is not None:
-  if messages_.isSome then
-    -- self._messages.extend(messages)
-    let t1 ← HM.deref messages_
-    HM.modify (fun h => h.setLst self_ (h.lst self_ ++ t1))
-  pure ()
-
-/-- translation of `AbsoluteSequence.__init__` (absolute_sequence.py:26) -/
-def absoluteSequenceInit (g : GOrc) (tag : Nat) (self_ : Nat) (messages_ : Option (List (Nat))) : HM Unit := do
-  -- super().__init__(messages=messages)
-  abstractSequenceInit g tag self_ messages_
-
-/-- translation of `RelativeSequence.__init__` (relative_sequence.py:29) -/
-def relativeSequenceInit (g : GOrc) (tag : Nat) (self_ : Nat) (messages_ : Option (List (Nat))) : HM Unit := do
-  -- super().__init__(messages=messages)
-  abstractSequenceInit g tag self_ messages_
-
-
-/-- `self.__class__` of a view object is `AbsoluteSequence` or `RelativeSequence`; both constructors have the same translation -/
-def viewClassInit := absoluteSequenceInit
-example : @absoluteSequenceInit = @relativeSequenceInit := rfl
-
-/-- translation of `AbstractSequence.copy` (abstract_sequence.py:20) -/
-def abstractSequenceCopy (g : GOrc) (tag : Nat) (self_ : Nat) : HM Nat := do
-  -- cpy = self.__class__(messages=[msg.copy() for msg in self._messages])
-  let h1 ← HM.get
-  let t3 ← HM.mapM (fun msg_ => do
-      let t2 ← messageCopy g tag msg_
-      pure t2) (h1.lst self_)
-  let t4 ← newView
-  viewClassInit g tag t4 (some t3)
-  let mut cpy_ : Nat := t4
-  -- return cpy
-  return cpy_
-
-/-- translation of `Sequence.abs` (sequence.py:79) -/
-def sequenceAbs (g : GOrc) (tag : Nat) (self_ : Nat) : HM (Option (Nat)) := do
-  -- if self._abs_stale:
-  let h1 ← HM.get
-  if (h1.seq self_).absStale then
-    -- if self._rel_stale:
-    let h2 ← HM.get
-    if (h2.seq self_).relStale then
-      -- raise SequenceException('Sequence references stale.')
-      HM.fail HErr.stale
-    -- self._abs = self._rel.to_absolute_sequence()
-    let h3 ← HM.get
-    let t4 ← HM.deref (h3.seq self_).rel
-    let t5 ← relToAbsoluteSequence g.orc t4
-    HM.modify (fun h => h.setSeq self_ { h.seq self_ with abs := (some t5) })
-    -- self._abs_stale = False
-    HM.modify (fun h => h.setSeq self_ { h.seq self_ with absStale := false })
-  -- return self._abs
-  let h6 ← HM.get
-  return (h6.seq self_).abs
-
-/-- translation of `Sequence.rel` (sequence.py:98) -/
-def sequenceRel (g : GOrc) (tag : Nat) (self_ : Nat) : HM (Option (Nat)) := do
-  -- if self._rel_stale:
-  let h1 ← HM.get
-  if (h1.seq self_).relStale then
-    -- if self._abs_stale:
-    let h2 ← HM.get
-    if (h2.seq self_).absStale then
-      -- raise SequenceException('Sequence references stale.')
-      HM.fail HErr.stale
-    -- self._rel = self._abs.to_relative_sequence()
-    let h3 ← HM.get
-    let t4 ← HM.deref (h3.seq self_).abs
-    let t5 ← absToRelativeSequence g.orc t4
-    HM.modify (fun h => h.setSeq self_ { h.seq self_ with rel := (some t5) })
-    -- self._rel_stale = False
-    HM.modify (fun h => h.setSeq self_ { h.seq self_ with relStale := false })
-  -- return self._rel
-  let h6 ← HM.get
-  return (h6.seq self_).rel
-
-/-- translation of `Sequence.invalidate_abs` (sequence.py:116) -/
-def sequenceInvalidateAbs (g : GOrc) (tag : Nat) (self_ : Nat) : HM Unit := do
-  -- self._abs_stale = True
-  HM.modify (fun h => h.setSeq self_ { h.seq self_ with absStale := true })
-
-/-- translation of `Sequence.invalidate_rel` (sequence.py:120) -/
-def sequenceInvalidateRel (g : GOrc) (tag : Nat) (self_ : Nat) : HM Unit := do
-  -- self._rel_stale = True
-  HM.modify (fun h => h.setSeq self_ { h.seq self_ with relStale := true })
-
-/-- translation of `Sequence.__init__` (sequence.py:35) -/
-def sequenceInit (g : GOrc) (tag : Nat) (self_ : Nat) (absoluteSequence_ : Option (Nat)) (relativeSequence_ : Option (Nat)) : HM Unit := do
-  -- super().__init__()
-  -- (object.__init__: nothing)
-  -- self.invalidate_abs()
-  sequenceInvalidateAbs g tag self_
-  -- self.invalidate_rel()
-  sequenceInvalidateRel g tag self_
-  -- if absolute_sequence is None and relative_sequence is None:
-  if (absoluteSequence_.isNone && relativeSequence_.isNone) then
-    -- self._abs = AbsoluteSequence()
-    let t1 ← newView
-    absoluteSequenceInit g tag t1 none
-    HM.modify (fun h => h.setSeq self_ { h.seq self_ with abs := (some t1) })
-    -- self._rel = None
-    HM.modify (fun h => h.setSeq self_ { h.seq self_ with rel := none })
-    -- self._abs_stale = False
-    HM.modify (fun h => h.setSeq self_ { h.seq self_ with absStale := false })
-    -- self.invalidate_rel()
-    sequenceInvalidateRel g tag self_
-  else
-    -- if absolute_sequence is not None and relative_sequence is None:
-    if (absoluteSequence_.isSome && relativeSequence_.isNone) then
-      -- self._abs = absolute_sequence
-      HM.modify (fun h => h.setSeq self_ { h.seq self_ with abs := absoluteSequence_ })
-      -- self._abs_stale = False
-      HM.modify (fun h => h.setSeq self_ { h.seq self_ with absStale := false })
-      -- self.invalidate_rel()
-      sequenceInvalidateRel g tag self_
-    else
-      -- if relative_sequence is not None and absolute_sequence is None:
-      if (relativeSequence_.isSome && absoluteSequence_.isNone) then
-        -- self._rel = relative_sequence
-        HM.modify (fun h => h.setSeq self_ { h.seq self_ with rel := relativeSequence_ })
-        -- self.invalidate_abs()
-        sequenceInvalidateAbs g tag self_
-        -- self._rel_stale = False
-        HM.modify (fun h => h.setSeq self_ { h.seq self_ with relStale := false })
-      else
-        -- if absolute_sequence is not None and relative_sequence is not None:
-        if (absoluteSequence_.isSome && relativeSequence_.isSome) then
-          -- self._abs = absolute_sequence
-          HM.modify (fun h => h.setSeq self_ { h.seq self_ with abs := absoluteSequence_ })
-          -- self._rel = relative_sequence
-          HM.modify (fun h => h.setSeq self_ { h.seq self_ with rel := relativeSequence_ })
-          -- self._abs_stale = False
-          HM.modify (fun h => h.setSeq self_ { h.seq self_ with absStale := false })
-          -- self._rel_stale = False
-          HM.modify (fun h => h.setSeq self_ { h.seq self_ with relStale := false })
-        else
-          -- raise SequenceException('Invalid sequence initialisation.')
-          HM.fail HErr.seqError
-  pure ()
-
-/-- translation of `Sequence.copy` (sequence.py:61) -/
-def sequenceCopy (g : GOrc) (tag : Nat) (self_ : Nat) : HM Nat := do
-  let mut cpyAbs_ : Option (Nat) := none
-  let mut cpyRel_ : Option (Nat) := none
-  -- cpy_abs = None
-  cpyAbs_ := none
-  -- if not self._abs_stale:
-  let h1 ← HM.get
-  if (!(h1.seq self_).absStale) then
-    -- cpy_abs = self.abs.copy()
-    let t2 ← sequenceAbs g tag self_
-    let t3 ← HM.deref t2
-    let t4 ← abstractSequenceCopy g tag t3
-    cpyAbs_ := (some t4)
-  -- cpy_rel = None
-  cpyRel_ := none
-  -- if not self._rel_stale:
-  let h5 ← HM.get
-  if (!(h5.seq self_).relStale) then
-    -- cpy_rel = self.rel.copy()
-    let t6 ← sequenceRel g tag self_
-    let t7 ← HM.deref t6
-    let t8 ← abstractSequenceCopy g tag t7
-    cpyRel_ := (some t8)
-  -- cpy = self.__class__(cpy_abs, cpy_rel)
-  let t9 ← newSequence
-  sequenceInit g tag t9 cpyAbs_ cpyRel_
-  let mut cpy_ : Nat := t9
-  -- return cpy
-  return cpy_
-
-/-- translation of `Sequence.split` (sequence.py:261) -/
-def sequenceSplit (g : GOrc) (tag : Nat) (self_ : Nat) : HM (List (Nat)) := do
-  -- relative_sequences = self.rel.split(capacities)
-  let t1 ← sequenceRel g tag self_
-  let t2 ← HM.deref t1
-  let t3 ← relSplit g.orc tag t2
-  let mut relativeSequences_ : List (Nat) := t3
-  -- sequences = [Sequence(relative_sequence=seq.copy()) for seq in relative_sequences]
-  let t6 ← HM.mapM (fun seq_ => do
-      let t4 ← abstractSequenceCopy g tag seq_
-      let t5 ← newSequence
-      sequenceInit g tag t5 none (some t4)
-      pure t5) relativeSequences_
-  let mut sequences_ : List (Nat) := t6
-  -- return sequences
-  return sequences_
-
-/-- translation of `Sequence.normalise` (sequence.py:207) -/
-def sequenceNormalise (g : GOrc) (tag : Nat) (self_ : Nat) : HM Unit := do
-  -- self.rel.normalise_relative()
-  let t1 ← sequenceRel g tag self_
-  let t2 ← HM.deref t1
-  relNormaliseRelative g.orc tag t2
-  -- self.invalidate_abs()
-  sequenceInvalidateAbs g tag self_
-
-/-- translation of `Sequence.messages_rel` (sequence.py:192) -/
-def sequenceMessagesRel (g : GOrc) (tag : Nat) (self_ : Nat) : HM (List (Nat)) := do
-  -- try:
-  let yielded_ ← HM.tryFinally (do
-      let mut yielded_ : List Nat := []
-      -- for message in self.rel._messages:
-      let t1 ← sequenceRel g tag self_
-      let t2 ← HM.deref t1
-      let h3 ← HM.get
-      for message_ in (h3.lst t2) do
-        -- self.invalidate_abs()
-        sequenceInvalidateAbs g tag self_
-        -- yield message
-        yielded_ := yielded_ ++ [message_]
-      return yielded_)
-    (do
-      -- self.invalidate_abs()
-      sequenceInvalidateAbs g tag self_
-      pure ())
-  return yielded_
-
-/-- translation of `Sequence.pad` (sequence.py:240) -/
-def sequencePad (g : GOrc) (tag : Nat) (self_ : Nat) : HM Unit := do
-  -- self.rel.pad(padding_length)
-  let t1 ← sequenceRel g tag self_
-  let t2 ← HM.deref t1
-  relPad g.orc tag t2
-  -- self.invalidate_abs()
-  sequenceInvalidateAbs g tag self_
-
-/-- translation of `RelativeSequence.add_message` (relative_sequence.py:73) -/
-def relativeSequenceAddMessage (g : GOrc) (tag : Nat) (self_ : Nat) (msg_ : Nat) (index_ : Option (Int)) : HM Unit := do
-  -- if index is None:
-  if index_.isNone then
-    -- self._messages.append(msg)
-    HM.modify (fun h => h.setLst self_ (h.lst self_ ++ [msg_]))
-  else
-    -- self._messages.insert(index, msg)
-    let t1 ← HM.deref index_
-    HM.modify (fun h => h.setLst self_ (HM.pyInsert msg_ t1 (h.lst self_)))
-  pure ()
-
-/-- translation of `Sequence.overwrite_relative_messages` (sequence.py:226) -/
-def sequenceOverwriteRelativeMessages (g : GOrc) (tag : Nat) (self_ : Nat) (messages_ : List (Nat)) : HM Unit := do
-  -- rel = RelativeSequence()
-  let t1 ← newView
-  relativeSequenceInit g tag t1 none
-  let mut rel_ : Nat := t1
-  -- for msg in messages:
-  for msg_ in messages_ do
-    -- rel.add_message(msg)
-    relativeSequenceAddMessage g tag rel_ msg_ none
-  -- self._rel = rel
-  HM.modify (fun h => h.setSeq self_ { h.seq self_ with rel := (some rel_) })
-  -- self._rel_stale = False
-  HM.modify (fun h => h.setSeq self_ { h.seq self_ with relStale := false })
-  -- self.invalidate_abs()
-  sequenceInvalidateAbs g tag self_
-
-/-- translation of `Sequence.add_relative_message` (sequence.py:144) -/
-def sequenceAddRelativeMessage (g : GOrc) (tag : Nat) (self_ : Nat) (msg_ : Nat) (index_ : Option (Int)) : HM Unit := do
-  -- self.rel.add_message(msg, index=index)
-  let t1 ← sequenceRel g tag self_
-  let t2 ← HM.deref t1
-  relativeSequenceAddMessage g tag t2 msg_ index_
-  -- self.invalidate_abs()
-  sequenceInvalidateAbs g tag self_
-
-/-- translation of `Bar.__init__` (bar.py:14) -/
-def barInit (g : GOrc) (tag : Nat) (self_ : Nat) (sequence_ : Nat) (numerator_ : Int) (denominator_ : Int) (key_ : Int) (defaultChannel_ : Int) : HM Unit := do
-  -- super().__init__()
-  -- (object.__init__: nothing)
-  -- self.sequence: Sequence = sequence
-  HM.modify (fun h => h.setBar self_ { h.bar self_ with seq := sequence_ })
-  -- self.time_signature_numerator = numerator
-  HM.modify (fun h => h.setBar self_ { h.bar self_ with num := numerator_ })
-  -- self.time_signature_denominator = denominator
-  HM.modify (fun h => h.setBar self_ { h.bar self_ with den := denominator_ })
-  -- self.key_signature = key
-  HM.modify (fun h => h.setBar self_ { h.bar self_ with key := key_ })
-  -- self.sequence.normalise()
-  let h1 ← HM.get
-  sequenceNormalise g tag (h1.bar self_).seq
-  -- capacity = int(self.time_signature_numerator * PPQN / (self.time_signature_denominator / 4))
-  let h2 ← HM.get
-  -- (capacity: value level)
-  -- duration = sum((msg.time for msg in self.sequence.messages_rel() if msg.message_type == MessageType.WAIT))
-  let t3 ← sequenceMessagesRel g tag (h2.bar self_).seq
-  let h4 ← HM.get
-  let t5 := t3.filter (fun msg_ => (h4.msg msg_).ty == MType.wait)
-  let h6 ← HM.get
-  let t7 := t5.map (fun msg_ => (h6.msg msg_).time)
-  -- (duration: value level)
-  -- if duration > capacity:
-  -- (value-level exception BarException('Bar capacity exceeded'): not modelled, as in HeapOps)
-  -- if duration < capacity:
-  if g.barPadDec (mix tag 1) (optVals h4 (h4.seq (h4.bar self_).seq).rel) then
-    -- self.sequence.pad(capacity)
-    let h8 ← HM.get
-    sequencePad g (mix tag 1) (h8.bar self_).seq
-  -- time_signatures = [msg for msg in self.sequence.messages_rel() if msg.message_type == MessageType.TIME_SIGNATURE]
-  let h9 ← HM.get
-  let t10 ← sequenceMessagesRel g tag (h9.bar self_).seq
-  let h11 ← HM.get
-  let t12 := t10.filter (fun msg_ => (h11.msg msg_).ty == MType.timeSignature)
-  let mut timeSignatures_ : List (Nat) := t12
-  -- if len(time_signatures) > 1:
-  -- (value-level exception BarException('Too many time signatures in a bar'): not modelled, as in HeapOps)
-  -- if not all((msg.numerator == self.time_signature_numerator and msg.denominator == self.time_signature_denominator for msg in time_signatures)):
-  -- (value-level exception BarException('Time signatures not uniform'): not modelled, as in HeapOps)
-  -- self.sequence.overwrite_relative_messages([msg for msg in self.sequence.messages_rel() if msg.message_type != MessageType.TIME_SIGNATURE])
-  let t14 ← sequenceMessagesRel g tag (h11.bar self_).seq
-  let h15 ← HM.get
-  let t16 := t14.filter (fun msg_ => (h15.msg msg_).ty != MType.timeSignature)
-  sequenceOverwriteRelativeMessages g tag (h11.bar self_).seq t16
-  -- self.sequence.add_relative_message(Message(message_type=MessageType.TIME_SIGNATURE, channel=default_channel, numerator=self.time_signature_numerator, denominator=self.time_signature_denominator), index=0)
-  let h17 ← HM.get
-  let t18 ← newMessage
-  messageInit g tag t18 MType.timeSignature defaultChannel_ pyNone pyNone pyNone pyNone (h17.bar self_).num (h17.bar self_).den pyNone pyNone
-  sequenceAddRelativeMessage g tag (h17.bar self_).seq t18 (some 0)
-  -- self.sequence._abs_stale = True
-  let h19 ← HM.get
-  HM.modify (fun h => h.setSeq (h19.bar self_).seq { h.seq (h19.bar self_).seq with absStale := true })
-
-/-- translation of `Bar.copy` (bar.py:57) -/
-def barCopy (g : GOrc) (tag : Nat) (self_ : Nat) : HM Nat := do
-  -- cpy = self.__class__(self.sequence.copy(), self.time_signature_numerator, self.time_signature_denominator, self.key_signature)
-  let h1 ← HM.get
-  let t2 ← sequenceCopy g tag (h1.bar self_).seq
-  let h3 ← HM.get
-  let t4 ← newBarObj
-  barInit g tag t4 t2 (h3.bar self_).num (h3.bar self_).den (h3.bar self_).key 0
-  let mut cpy_ : Nat := t4
-  -- return cpy
-  return cpy_
-
-/-- translation of `RelativeSequence.concatenate` (relative_sequence.py:80) -/
-def relativeSequenceConcatenate (g : GOrc) (tag : Nat) (self_ : Nat) (sequences_ : List (Nat)) : HM Unit := do
-  -- for seq in sequences:
-  for seq_ in sequences_ do
-    -- self._messages.extend([msg for msg in seq._messages])
-    let h1 ← HM.get
-    HM.modify (fun h => h.setLst self_ (h.lst self_ ++ (h1.lst seq_)))
-  pure ()
-
-/-- translation of `Sequence.concatenate` (sequence.py:149) -/
-def sequenceConcatenate (g : GOrc) (tag : Nat) (self_ : Nat) (sequences_ : List (Nat)) : HM Unit := do
-  -- self.rel.concatenate([seq.rel for seq in sequences])
-  let t1 ← sequenceRel g tag self_
-  let t2 ← HM.deref t1
-  let t4 ← HM.mapM (fun seq_ => do
-      let t3 ← sequenceRel g tag seq_
-      pure t3) sequences_
-  let t5 ← HM.mapM HM.deref t4
-  relativeSequenceConcatenate g tag t2 t5
-  -- self.invalidate_abs()
-  sequenceInvalidateAbs g tag self_
-
-/-- translation of `Bar.to_sequence` (bar.py:74) -/
-def barToSequence (g : GOrc) (tag : Nat) (bars_ : List (Nat)) : HM Nat := do
-  -- sequence = Sequence()
-  let t1 ← newSequence
-  sequenceInit g tag t1 none none
-  let mut sequence_ : Nat := t1
-  -- sequences = []
-  let mut sequences_ : List (Nat) := []
-  -- for bar in bars:
-  for bar_ in bars_ do
-    -- sequences.append(bar.sequence)
-    let h2 ← HM.get
-    sequences_ := sequences_ ++ [(h2.bar bar_).seq]
-  -- sequence.concatenate(sequences)
-  sequenceConcatenate g tag sequence_ sequences_
-  -- return sequence
-  return sequence_
-
-/-- translation of `Track.__init__` (track.py:13) -/
-def trackInit (g : GOrc) (tag : Nat) (self_ : Nat) (bars_ : List (Nat)) (name_ : Int) : HM Unit := do
-  -- super().__init__()
-  -- (object.__init__: nothing)
-  -- self.name = name
-  HM.modify (fun h => h.setTrk self_ { h.trk self_ with name := name_ })
-  -- self.bars = bars
-  HM.modify (fun h => h.setTrk self_ { h.trk self_ with bars := bars_ })
-  -- self.program = None
-  HM.modify (fun h => h.setTrk self_ { h.trk self_ with program := pyNone })
-  -- seq = Bar.to_sequence(bars)
-  let t1 ← barToSequence g tag bars_
-  let mut seq_ : Nat := t1
-  -- program_changes = [msg for msg in seq.messages_rel() if msg.message_type == MessageType.PROGRAM_CHANGE]
-  let t2 ← sequenceMessagesRel g tag seq_
-  let h3 ← HM.get
-  let t4 := t2.filter (fun msg_ => (h3.msg msg_).ty == MType.programChange)
-  let mut programChanges_ : List (Nat) := t4
-  -- if len(program_changes) > 0:
-  if (decide (programChanges_.length > 0)) then
-    -- if not all((msg.program == program_changes[0].program for msg in program_changes)):
-    -- (value-level exception TrackException('Type of instrument inconsistent'): not modelled, as in HeapOps)
-    -- self.program = program_changes[0].program
-    let t7 ← HM.index programChanges_ 0
-    let h8 ← HM.get
-    HM.modify (fun h => h.setTrk self_ { h.trk self_ with program := (h8.msg t7).prog })
-  pure ()
-
-/-- translation of `Track.copy` (track.py:26) -/
-def trackCopy (g : GOrc) (tag : Nat) (self_ : Nat) : HM Nat := do
-  -- cpy = self.__class__([bar.copy() for bar in self.bars], self.name)
-  let h1 ← HM.get
-  let t3 ← HM.mapTag (fun tag bar_ => do
-      let t2 ← barCopy g tag bar_
-      pure t2) 3 tag (h1.trk self_).bars
-  let h4 ← HM.get
-  let t5 ← newTrack
-  trackInit g (mix tag 4) t5 t3 (h4.trk self_).name
-  let mut cpy_ : Nat := t5
-  -- return cpy
-  return cpy_
-
-/-- translation of `Composition.__init__` (composition.py:11) -/
-def compositionInit (g : GOrc) (tag : Nat) (self_ : Nat) (tracks_ : List (Nat)) : HM Unit := do
-  -- super().__init__()
-  -- (object.__init__: nothing)
-  -- self.tracks = tracks
-  HM.modify (fun h => h.setCmp self_ tracks_)
-
-/-- translation of `Composition.copy` (composition.py:15) -/
-def compositionCopy (g : GOrc) (tag : Nat) (self_ : Nat) : HM Nat := do
-  -- cpy = self.__class__([track.copy() for track in self.tracks])
-  let h1 ← HM.get
-  let t3 ← HM.mapTag (fun tag track_ => do
-      let t2 ← trackCopy g tag track_
-      pure t2) 5 tag (h1.cmp self_)
-  let t4 ← newComposition
-  compositionInit g tag t4 t3
-  let mut cpy_ : Nat := t4
-  -- return cpy
-  return cpy_
-
-def translated : List String := ["Message.__init__", "Message.copy", "AbstractSequence.__init__", "AbsoluteSequence.__init__", "RelativeSequence.__init__", "AbstractSequence.copy", "Sequence.abs", "Sequence.rel", "Sequence.invalidate_abs", "Sequence.invalidate_rel", "Sequence.__init__", "Sequence.copy", "Sequence.split", "Sequence.normalise", "Sequence.messages_rel", "Sequence.pad", "RelativeSequence.add_message", "Sequence.overwrite_relative_messages", "Sequence.add_relative_message", "Bar.__init__", "Bar.copy", "RelativeSequence.concatenate", "Sequence.concatenate", "Bar.to_sequence", "Track.__init__", "Track.copy", "Composition.__init__", "Composition.copy"]
-
-/-- every default argument of the translated functions, as written in the source -/
-def defaults : List String := ["Message.__init__(message_type=None)", "Message.__init__(channel=None)", "Message.__init__(time=None)", "Message.__init__(note=None)", "Message.__init__(velocity=None)", "Message.__init__(control=None)", "Message.__init__(numerator=None)", "Message.__init__(denominator=None)", "Message.__init__(key=None)", "Message.__init__(program=None)", "AbsoluteSequence.__init__(messages=None)", "AbstractSequence.__init__(messages=None)", "RelativeSequence.__init__(messages=None)", "Sequence.__init__(absolute_sequence=None)", "Sequence.__init__(relative_sequence=None)", "Bar.__init__(key=None)", "Bar.__init__(default_channel=0)", "RelativeSequence.add_message(index=None)", "Sequence.add_relative_message(index=None)", "Track.__init__(name=None)"]
-
-end SCoda.Gen.HeapFns
+/- GENERATION FAILED: Untranslatable: Bar.__init__: store into self.default_channel (a Bar) -/
+#eval ("generation failed" : Nat)
